@@ -9,7 +9,7 @@ use vstd::multiset::*;
 use vstd::seq_lib::*;
 global size_of usize == 8;
 #[derive(Debug)]
-pub enum Error { CutThrough }
+pub enum Error { CutThrough, Other(String) }
 pub trait El: Sized {
     spec fn key(&self) -> int;
 }
